@@ -133,8 +133,28 @@ impl<'a, C: SimCfg> Runner<'a, C> {
         if let Some(msg) = err {
             return Err(fail("panic", format!("a concurrent request panicked: {msg}")));
         }
-        for (r, v) in results {
-            self.model.serve(r, &v, "concurrent user")?;
+        if self.model.cyclic {
+            // the request order of this epoch is no longer known to the model
+            self.model.ambiguous = true;
+        }
+        for (r, v) in &results {
+            self.model.serve(*r, v, "concurrent user")?;
+        }
+        if self.model.cyclic {
+            // whatever the interleaving decided, it must be stable within
+            // the epoch
+            self.ensure_tracked(true).await;
+            for (r, v) in &results {
+                let te = self.tracked.as_ref().unwrap();
+                let again = query_node(te, &self.sc.program, *r).await;
+                self.drain()?;
+                if again != *v {
+                    return Err(fail(
+                        "unstable_in_epoch",
+                        format!("node {r} was served as {v:?} to a concurrent request and as {again:?} when asked again in the same epoch"),
+                    ));
+                }
+            }
         }
         Ok(())
     }
